@@ -545,8 +545,20 @@ func (st *State) mapDelete(m, k Val) {
 // ---------------------------------------------------------------------------
 // channels (ghost)
 
-func (st *State) chanClosed(ch Term) Term {
-	h := st.heapTerm("CH#closed", SBool, false)
+// closedKey: the closed/open ghost state is kept per channel element type, so that
+// channels of different types can never be taken for one another.
+func closedKey(t types.Type) string {
+	if t != nil {
+		if c, ok := t.Underlying().(*types.Chan); ok {
+			return "CH#closed#" + typeKey(c.Elem())
+		}
+	}
+	return "CH#closed#?"
+}
+
+func (st *State) chanClosed(chv Val) Term {
+	ch := chv.L[0]
+	h := st.heapTerm(closedKey(chv.T), SBool, false)
 	return Select(h, ch)
 }
 
@@ -561,7 +573,7 @@ func (st *State) countEvents(name string) Term {
 	n := 0
 	unc := false
 	for _, e := range st.trace {
-		if e.Name == "loop*" {
+		if strings.HasPrefix(e.Name, "loop*") {
 			unc = true
 		}
 		if e.Name == name {
@@ -1004,7 +1016,7 @@ func (e *Engine) enterLoop(st *State, li *loopInfo, from *ssa.BasicBlock, k cont
 			st.ghost[g] = st.freshValLike(old, "hv!ghost!"+g)
 		}
 	}
-	st.event("loop*", token.NoPos)
+	st.event(fmt.Sprintf("loop*%d", li.ordinal), token.NoPos)
 	// 3. assume invariant
 	if ls != nil {
 		for _, inv := range ls.Invariants {
@@ -1145,6 +1157,8 @@ func (e *Engine) backEdge(st *State, li *loopInfo) {
 	}
 	for i, ie := range ls.IterEnsures {
 		env := st.specEnv("iteration ensures")
+		env.scope = li.header
+		env.loopOrd = li.ordinal
 		t, err := st.evalClause(env, ie)
 		name := fmt.Sprintf("%siter[loop %d]#%d", prefix, li.ordinal, i+1)
 		if err != nil {
@@ -1466,8 +1480,8 @@ func (e *Engine) step(st *State, instr ssa.Instruction) {
 		st.set(in, Val{T: in.Type(), L: []Term{ref}})
 	case *ssa.MakeChan:
 		ref := st.newRef()
-		h := st.heapTerm("CH#closed", SBool, false)
-		st.setHeap("CH#closed", Store(h, ref, TFalse))
+		h := st.heapTerm(closedKey(in.Type()), SBool, false)
+		st.setHeap(closedKey(in.Type()), Store(h, ref, TFalse))
 		hc := st.heapTerm("CH#cap", SInt, false)
 		st.setHeap("CH#cap", Store(hc, ref, st.get(in.Size).term()))
 		hl := st.heapTerm("CH#held", SBool, false)
